@@ -90,7 +90,7 @@ fn inner(prop: &str, mut t: Tape, rep: &mut WorldReport) {
     let wide = matches!(prop, "C05" | "C14") || t.chance(1, 4);
     let mut pp = draw_pparams(&mut t, wide);
     pp.mainnet = t.chance(1, 4);
-    if prop == "C14" && t.chance(1, 6) {
+    if (prop == "C14" && t.chance(1, 6)) || (prop == "C10" && t.chance(1, 8)) {
         for v in 0..3 {
             pp.cost_models[v] = t.chance(1, 2);
         }
@@ -105,6 +105,7 @@ fn inner(prop: &str, mut t: Tape, rep: &mut WorldReport) {
             max_txs: 2,
             force_min_utxo: None,
             rich_directives,
+            optional_bias: false,
         },
     );
     let source = program.source();
@@ -133,6 +134,7 @@ fn inner(prop: &str, mut t: Tape, rep: &mut WorldReport) {
             _ => AmountDist::Comfortable,
         },
         ties: t.chance(1, 3),
+        distinct: false,
     };
     let (faults, stratum) = draw_faults(&mut t, prop);
     let direct = matches!(prop, "C03" | "C04") && t.chance(2, 3);
@@ -279,6 +281,14 @@ fn run_e2e(
 ) -> serde_json::Value {
     let byz = w.lock().unwrap().cfg.byz_permille > 0;
     let res = resolve_once(w, tir_tx, args, comp, max_rounds, cancel_after);
+    if comp.overrun {
+        rep.violate(
+            "C14",
+            "P3-hang",
+            "resolve_tx-runs-past-its-round-cap",
+            format!("{ctx}: resolve_tx asked for compile round {} although max_optimize_rounds = {max_rounds} allows at most {}", comp.compiles, max_rounds.max(3) + 2),
+        );
+    }
     sig.str(&res.outcome.kind().chars().take(24).collect::<String>());
     sig.u64(res.rounds.len() as u64);
     let served = w.lock().unwrap().served.clone();
